@@ -24,7 +24,8 @@ func init() {
 			"branch, so that many split frequencies are k/n exactly; threshold from {0.5, 0.5625, 0.625, 0.75, 0.875, 1} (dyadic: threshold·n is exact) or an " +
 			"out-of-range one; optional faulty record (foreign / missing / extra taxon, duplicate tip, malformed text, error record) at a drawn position; " +
 			"feed = real reader goroutine over a chunked stream or a producer; producer/consumer schedule; a second copy of the collection in another order " +
-			"and presentation). Oracle: naive frequency table over the split maps of the independent reference model. Non-trivial: ≥ 1 split is kept with " +
+			"and presentation; for a quarter of the cases identical texts are delivered as the same tree object; for a share of the cases with a foreign " +
+			"taxon, 40 further collections in which one taxon of one tree is renamed so that every name keeps its rank). Oracle: naive frequency table over the split maps of the independent reference model. Non-trivial: ≥ 1 split is kept with " +
 			"frequency < 1 and ≥ 1 is dropped, or a frequency equals the threshold exactly; distinct = distinct (threshold, tree texts)",
 		Gen: func(rt *rapid.T, tier string) any {
 			pc := genPipe(rt, tier, pipeGenOpts{algos: []string{"consensus"}, faults: true, minTax: 4, maxTax: 10, maxTrees: 16, rootedRecs: true, twoBases: true, maxFaults: 3})
